@@ -1237,10 +1237,9 @@ impl KeyWorld {
             return Ok(());
         }
         self.post_structure(ctx, opkind)?;
-        self.touched.clear();
         if let Some(a) = after.as_ref() {
             for (k, v) in a.iter() {
-                if self.model.get(k) != Some(v) && self.touched.len() < 8 {
+                if self.model.get(k) != Some(v) && self.touched.len() < 8 && !self.touched.contains(k) {
                     self.touched.push(*k);
                 }
             }
@@ -1804,6 +1803,14 @@ impl World for KeyWorld {
         ctx.stats.ops += 1;
         ctx.panic_at = step.panic_at;
         let n_before = ctx.cb_counts.len();
+        // the key this operation is about is part of every observation window that follows it
+        match step.op {
+            Op::KIns { k, .. } | Op::KGet { k, .. } | Op::KLess { k, .. } | Op::KLeq { k, .. } | Op::KLeqBy { k, .. } => {
+                self.touched.clear();
+                self.touched.push(k);
+            }
+            _ => {}
+        }
         match step.op {
             Op::Tick { dt } => {
                 let old = self.now;
